@@ -152,12 +152,16 @@ func TestVerif_C09(t *testing.T) {
 	add("f64", []uint64{2, 3, 2, 3}, []uint64{1, 2, 1, 2})
 	dss = append(dss, vfC09DS{name: "f64[6] chunk[2] shrunk-to[3]", typ: "f64", dims: []uint64{6}, chunk: []uint64{2}, shrinkTo: []uint64{3}})
 	dss = append(dss, vfC09DS{name: "f64[4 5] chunk[2 2] shrunk-to[3 2]", typ: "f64", dims: []uint64{4, 5}, chunk: []uint64{2, 2}, shrinkTo: []uint64{3, 2}})
+	// grown by Resize and not written again: chunks inside the extent that were never allocated
+	dss = append(dss, vfC09DS{name: "f64[4] chunk[2] grown-to[7]", typ: "f64", dims: []uint64{4}, chunk: []uint64{2}, shrinkTo: []uint64{7}})
+	dss = append(dss, vfC09DS{name: "i32[2 3] chunk[2 2] grown-to[4 5]", typ: "i32", dims: []uint64{2, 3}, chunk: []uint64{2, 2}, shrinkTo: []uint64{4, 5}})
+	dss = append(dss, vfC09DS{name: "f64[3 2] chunk[2 2] reshaped-to[2 5]", typ: "f64", dims: []uint64{3, 2}, chunk: []uint64{2, 2}, shrinkTo: []uint64{2, 5}})
 	{
 		add("u32", []uint64{7}, []uint64{3})
 		add("f64", []uint64{5, 5}, []uint64{2, 3}, []uint64{5, 1})
 		add("i32", []uint64{3, 4, 3}, []uint64{2, 3, 2})
 	}
-	r.Rule("per library-written dataset (rank 1-4; contiguous and chunked with selections spanning several chunks and partial edge chunks; one shrunk by Resize): every (start,count,stride,block) per dimension with start in [0,d], count in [1,d+1], stride in {1,2,3,d}, block in {1,2}, stride>=block (rank>=3: reduced stride/block sets, stated in evidence) — all valid selections plus all that leave the bounds by exactly one element; ReadHyperslab (and ReadSlice for stride=block=1) compared element-wise with a gather from the full Read() of the same open file; the chunk iterator must visit each stored chunk once and tile the full read; every selection is a distinct case")
+	r.Rule("per library-written dataset (rank 1-4; contiguous and chunked with selections spanning several chunks and partial edge chunks; two shrunk, two grown and one reshaped by Resize after the write, so that stale chunks lie outside and never-allocated chunks inside the extent): every (start,count,stride,block) per dimension with start in [0,d], count in [1,d+1], stride in {1,2,3,d}, block in {1,2}, stride>=block (rank>=3: reduced stride/block sets, stated in evidence) — all valid selections plus all that leave the bounds by exactly one element; ReadHyperslab (and ReadSlice for stride=block=1) compared element-wise with a gather from the full Read() of the same open file; the chunk iterator must visit each stored chunk once and tile the full read; every selection is a distinct case")
 	var totalSel, totalInvalid int64
 	for _, ds := range dss {
 		if r.Expired() {
@@ -176,7 +180,13 @@ func TestVerif_C09(t *testing.T) {
 			opts = append(opts, WithChunkDims(ds.chunk))
 		}
 		if ds.shrinkTo != nil {
-			opts = append(opts, WithMaxDims(ds.dims))
+			mx := append([]uint64{}, ds.dims...)
+			for k := range mx {
+				if ds.shrinkTo[k] > mx[k] {
+					mx[k] = ds.shrinkTo[k]
+				}
+			}
+			opts = append(opts, WithMaxDims(mx))
 		}
 		dw, err := w.CreateDataset("/d", ty.DT, ds.dims, opts...)
 		if err != nil {
@@ -219,6 +229,9 @@ func TestVerif_C09(t *testing.T) {
 		}
 		if ds.shrinkTo != nil {
 			layout = "chunked-shrunk"
+			if vfProd(ds.shrinkTo) > vfProd(ds.dims) {
+				layout = "chunked-grown"
+			}
 		}
 		// per-dimension choices
 		valid := make([][]vfSelDim, rank)
@@ -419,7 +432,20 @@ func TestVerif_C09(t *testing.T) {
 					}
 				}
 				for off, n := range filled {
-					if n != 1 {
+					want := 1
+					if ds.shrinkTo != nil {
+						// a chunk is stored iff it intersects the extent that was written before
+						// the Resize; elements of never-stored chunks are covered by no piece
+						rem := uint64(off)
+						for k := rank - 1; k >= 0; k-- {
+							c := rem % dims[k]
+							rem /= dims[k]
+							if (c/cd[k])*cd[k] >= ds.dims[k] {
+								want = 0
+							}
+						}
+					}
+					if n != want {
 						detail["offset"], detail["times"] = off, n
 						r.Fail(layout+"/iterator/pieces-do-not-tile", detail)
 						return
